@@ -350,7 +350,7 @@ def srvCb (size : Nat) (plus : Bool) (errAt : Option Nat) : Cb Acc := fun a o =>
     | .error _ => ({ a with offered := a.offered + 1 }, .err EIO)
 
 /-- one READDIR / READDIRPLUS request: new state, delivered entries or errno -/
-def read (H : Host) (st : St) (plus : Bool) (h size offset : Nat) (errAt : Option Nat := none) :
+def read (H : Host) (st : St) (plus : Bool) (h size offset : Nat) (errAt : Option Nat) :
     St × Except Nat (List Offer) :=
   let r := doReaddir H st plus h size offset (srvCb size plus errAt) ({} : Acc)
   match r.ret with
@@ -387,7 +387,7 @@ def pseudoReaddir {σ : Type} (children : List PChild) (size offset : Nat) (cb :
     .done s r
 
 /-- one READDIR(PLUS) on a pseudo directory; `none` = panic -/
-def pseudoRead (children : List PChild) (plus : Bool) (size offset : Nat) (errAt : Option Nat := none) :
+def pseudoRead (children : List PChild) (plus : Bool) (size offset : Nat) (errAt : Option Nat) :
     Option (Except Nat (List Offer)) :=
   match pseudoReaddir children size offset (srvCb size plus errAt) ({} : Acc) with
   | .panic => none
